@@ -2,6 +2,7 @@ package main
 
 import (
 	"encoding/json"
+	"go/types"
 	"flag"
 	"fmt"
 	"os"
@@ -65,13 +66,13 @@ func rootsFor(eng *Engine, tag string) []root {
 		if eng.ld.prog.Fset.Position(fn.Pos()).Filename == "" {
 			continue
 		}
-		if strings.HasSuffix(eng.ld.prog.Fset.Position(fn.Pos()).Filename, "zz_verif_spec_gen.go") {
+		if strings.Contains(eng.ld.prog.Fset.Position(fn.Pos()).Filename, "zz_verif_spec_gen") {
 			continue
 		}
 		if fn.Parent() != nil {
 			continue // closures are reached through their parents (inlined) or havocked
 		}
-		if eng.callsAnyDeep(fn, want, map[*ssa.Function]bool{}) {
+		if eng.callsAnyDeep(fn, want, map[*ssa.Function]bool{}) || eng.updatesTaggedMap(fn, tag) {
 			add(fn, eng.specForFn(fn))
 		}
 	}
@@ -443,4 +444,27 @@ func truncate(s string, n int) string {
 func writeJSON(path string, v any) {
 	b, _ := json.MarshalIndent(v, "", " ")
 	os.WriteFile(path, append(b, '\n'), 0644)
+}
+
+// updatesTaggedMap: fn (or a closure in it) stores into a map whose value type carries an invariant with the tag.
+func (eng *Engine) updatesTaggedMap(fn *ssa.Function, tag string) bool {
+	for _, b := range fn.Blocks {
+		for _, in := range b.Instrs {
+			if mu, ok := in.(*ssa.MapUpdate); ok {
+				if mt, ok := mu.Map.Type().Underlying().(*types.Map); ok {
+					for _, vi := range eng.valInvs(mt.Elem()) {
+						if vi.c.HasTag(tag) {
+							return true
+						}
+					}
+				}
+			}
+		}
+	}
+	for _, a := range fn.AnonFuncs {
+		if eng.updatesTaggedMap(a, tag) {
+			return true
+		}
+	}
+	return false
 }
